@@ -35,6 +35,14 @@ def explore(ctx, art):
     # ... and with one more peer that connects right before Stop() while the application's OnNewConn callback for it is still
     # running (150 ms): the connection is not in the server's table yet, only its own context can tell it about the stop
     lines += ["case %s srvstop k%ds stop" % (t, k) for t in ("tcp", "dtls") for k in (0, 1)]
+    # ... and with connections the application closed itself just before (cc.Close() on the accepted connection), whose first
+    # on-close callback takes 60 ms: Stop() comes while the shutdown of such a connection - started by its reader or by the
+    # datagram server's housekeeping sweep - is still walking the callbacks; each must run exactly once (seeded C09-N)
+    lines += ["case %s srvstop k%dc stop" % (t, k) for t in ("udp", "tcp", "dtls") for k in (1, 2)]
+    # ... and (datagram server) with the housekeeping sweep busy in an inactivity callback of the application (100 ms) when
+    # Stop() comes: the sweep holds its snapshot of the connection table, so Stop() and the sweep both find the same closed
+    # connections and both shut their sessions down
+    lines += ["case udp srvstop k%di stop" % k for k in (2, 3, 3, 4)]
     # a stream server accepts a connection whose peer is already gone: the signalling message written during the set-up
     # fails; the connection handed to OnNewConn must still complete its done signal and run its callbacks once
     lines += ["case tcp srvstop deadpeer stop"]
